@@ -6,6 +6,8 @@ C18.P  panic sites (PAN) of every function of postcard-dyn: MIR assertions, expl
 C18.A  allocation / progress: in the decoder every loop whose trip count is decoded from the input must consume at least one input
        byte per iteration (a reader or take_one/take_n(>=1) call inside the body on every path) or be guarded against the remaining
        length; no allocation may be sized by a value decoded from the input (with_capacity / reserve / vec![x; n]).
+C18.R  per schema kind the encoder's wire effects and the decoder's reads follow the same table (C17.W re-evaluated): what one writes
+       the other reads back, a necessary condition for decode-after-encode success and re-encode equality.
 C18.C  arm coverage agreement: every schema kind for which the encoder has an accepting path has an accepting, non-panicking arm in the
        decoder (necessary for 'what encoding accepts, decoding accepts').
 Does not decide re-encode byte equality for all JSON values nor recursion depth.
@@ -156,6 +158,10 @@ def run(run_, ctx):
             probs.append("an arm for %s panics" % arm)
         run_.check(not probs, "C", arm, probs[0] if probs else ("both directions handle this kind" if s_ok else "refused by both directions with an error"), Ade.fn.where(), found=probs)
     run_.floor("C", 26)
+    # ---- R: what the encoder writes per kind is what the decoder reads per kind (necessary for decode-after-encode and re-encode equality)
+    import c17
+    c17.check_tables(run_, F, helpers, "R")
+    run_.floor("R", 56)
     run_.explanation = (
         "All %d non-helper functions of postcard-dyn are explored on all paths (loops 0..2 iterations) and every MIR assertion, diverging call and panicking std call "
         "is listed and discharged; the 17 helper copies are covered by their BIT proofs. In the decoder, loops whose trip count comes from a decoded varint are located "
